@@ -41,12 +41,14 @@ def shapes(pal=0):
     return out
 
 
-CONFIGS = ["default", "kind", "name", "both", "cluster", "lr", "empty-kind", "falsy-name", "base-kind"]
+CONFIGS = ["default", "kind", "name", "both", "cluster", "lr", "empty-kind", "falsy-name", "base-kind", "minimal"]
 
 
 def config_for(label, spec):
     if label == "default":
         return {}
+    if label == "minimal":   # a hand-written configuration with the four sections and almost nothing in them: nothing the caller left out may appear
+        return {"graph": {"rankdir": "TB"}, "node": {"default": {"shape": "box"}, spec["comps"][1]["n"]: {"color": "red"}}, "edge": {}, "cluster": {"default": {}}}
     c = get_conf()
     first = spec["comps"][1]
     if label in ("kind", "both"):
@@ -225,6 +227,8 @@ def check_case(case):
         comps.append(dict(n=case["names"][1], k="RLoss", a=dict(rs=1.0), p=[case["names"][0]], g="", r=""))
         comps.append(dict(n=case["names"][2], k="ILoad", a=dict(ii=0.1), p=[case["names"][1]], g="", r=""))
         spec = dict(name="names", comps=comps, phases=None)
+    elif fam == "custom":
+        spec = copy.deepcopy(case["spec"])
     else:
         spec = copy.deepcopy(shapes(case["pal"])[case["shape"]])
         for c, gi in zip(spec["comps"], case["groups"]):
@@ -247,6 +251,20 @@ def check_case(case):
         res.v(("C19.config-mutated",), "caller's configuration changed")
     gph = parse(text)
     check_graph(res, spec, s, gph, heat, group, copy.deepcopy(conf_eff), tag)
+    if heat and case.get("swap"):
+        # the diagram was drawn; now a tabulated component is replaced under the same name by one with OTHER table values; the next diagram shows the new losses
+        from ..sysmodel import make_comp
+        for c in spec["comps"]:
+            tabs = [k_ for k_, v_ in c["a"].items() if isinstance(v_, dict)]
+            if tabs:
+                z_ = [k_ for k_ in c["a"][tabs[0]] if k_ not in ("vi", "io")][0]
+                c["a"][tabs[0]][z_] = [[(min(0.99, v_ * 0.8) if z_ == "eff" else v_ * 3.0) for v_ in row] for row in c["a"][tabs[0]][z_]]
+                s.change_comp(c["n"], comp=make_comp(c), group=c.get("g", ""), rail=c.get("r", ""))
+                if c.get("pc") is not None and spec.get("phases"):
+                    s.set_comp_phases(c["n"], copy.deepcopy(c["pc"]))
+        ret, text = render(s, heat, "raw", group, conf)
+        check_graph(res, spec, s, parse(text), heat, group, copy.deepcopy(conf_eff), tag + ":after-table-swap")
+        res.classes.add("swap")
     if case.get("graphviz"):
         try:
             ret, jt = render(s, heat, "json", group, conf)
@@ -300,6 +318,15 @@ def gen_cases(tier):
                             yield dict(fam="shape", shape=name, pal=pal, groups=groups, config=cfg, heat=heat, group=group, graphviz=False, blank_groups=True)
                         if cfg == "default" and sum(gs) in (0, 2):  # the same structure reached through an edit history (freed + re-used node indices)
                             yield dict(fam="shape", shape=name, pal=pal, groups=groups, config=cfg, heat=heat, group=group, graphviz=False, holes=True)
+    L_ = letters(pal)
+    tabsys = dict(name="tabs", phases=dict(PH2), comps=[
+        dict(n="S1", k="Source", a=dict(vo=5.0, rs=0.1), p=[], g="", r=""),
+        dict(n="C1", k=L_["CV1"][0], a=copy.deepcopy(L_["CV1"][1]), p=["S1"], g="g1", r=""), dict(n="V1", k=L_["VL1"][0], a=copy.deepcopy(L_["VL1"][1]), p=["C1"], g="", r=""),
+        dict(n="G1", k=L_["LR1"][0], a=copy.deepcopy(L_["LR1"][1]), p=["S1"], g="", r=""), dict(n="L1", k="ILoad", a=dict(ii=0.2), p=["V1"], g="", r="", pc={"a": 0.1, "b": 0.3}),
+        dict(n="L2", k="PLoad", a=dict(pwr=0.1), p=["G1"], g="", r="")])
+    for cfg in ("default", "minimal"):
+        for group in (True, False):
+            yield dict(fam="custom", spec=tabsys, config=cfg, heat=True, group=group, swap=True)
     decs = range(-14, 13)
     mant = [1.234, 9.996, 5.555, 1.0, 9.5]
     for d_ in decs:
